@@ -80,7 +80,8 @@ def run_shard(shard: Dict[str, Any]) -> Dict[str, Any]:
 
     acc = Acc()
     holder = [None]
-    clock.install(lambda: holder[0])
+    # the process' local zone must not matter: odd parts run with naive now() 5:30 ahead of UTC
+    clock.install(lambda: holder[0], local_offset=dt.timedelta(hours=5, minutes=30) if shard["part"] % 2 else None)
     cache: Dict[Any, Any] = {}
 
     def task(expr: str, okey: str, off: Any) -> Any:
